@@ -27,6 +27,14 @@ CLAIMED = {
                      "theorems over ALL operation lists (any number of workers, any arrival time of plan/verdict). The model is tied by running every generated op "
                      "sequence (exhaustive up to length 6/7) on the real sendFileState methods and comparing outputs and full state; scheduler choices must lie in the model's allowed set.",
                 note=BASE_TB + "Modelled not verified: applyResumeInfo's closure is represented by its three locked updates; scheduler credits abstracted to nondeterministic choice; Go mutex gives atomicity of each method."),
+    "C12": dict(category="proof", design="DESIGN.md §4 C12",
+                technique="Lean 4 inductive invariant over all event histories of a handler-by-handler model of SnapshotSender admission; exhaustive + random history differential on the real struct",
+                text="Cap (un-cancelled running transfers <= max-receivers, slot table = running set), queue/slot/status exclusivity, eagerness and leave-release are "
+                     "proved as an invariant preserved by every event (join, accept, leave, transfer end incl. stale ones, cleanup tick) for every max and any number of "
+                     "receivers. Tie: every generated history (exhaustive for 2 receivers up to length 3/4, seeded longer ones) runs on a real SnapshotSender with a stub "
+                     "transfer function; queue, slots, statuses and running/cancelled transfers are compared with the model after every event.",
+                note=BASE_TB + "Modelled not verified: atomicity of each handler (it holds SnapshotSender.mu); TransferStart/TransferQueued messages are not compared. "
+                     "Props/C12 imports Mathlib.Data.List.Nodup and .Perm.Subperm for list lemmas."),
 }
 PENDING_REASON = "check not built yet in this round (design in DESIGN.md §4); not claimed until its theorem and tie exist"
 NOT_APPLICABLE = {}
